@@ -88,5 +88,22 @@ Definition sync_ok_c13 (c : synccase) : bool :=
   match c with SyncCase _ calls => forallb (fun a => negb (bad_call a)) calls end.
 Definition sync_run_c13 (l : list synccase) : list N * list N * list (N * N) :=
   (idx_filter_s sync_agree l 0, idx_filter_s sync_ok_c13 l 0, []).
+(* C14: a persisted publish that returned an error left no record behind (observation kind 9 =
+   publish records in the Persistence after such a return); nothing panicked or hung *)
+Definition sync_ok_c14 (c : synccase) : bool :=
+  match c with SyncCase _ calls =>
+    forallb (fun a => match a_kind a with 9 => a_cls a =? 0 | _ => negb (bad_call a) end) calls
+  end.
+Definition sync_run_c14 (l : list synccase) : list N * list N * list (N * N) :=
+  (idx_filter_s sync_agree l 0, idx_filter_s sync_ok_c14 l 0, []).
+(* C01 (and C03): after a write error of a persisted publish the message is written again on the
+   next connection (observation kind 12 = PUBLISH packets seen on the second connection: at least
+   one); nothing panicked or hung on the way *)
+Definition sync_ok_c01 (c : synccase) : bool :=
+  match c with SyncCase _ calls =>
+    forallb (fun a => match a_kind a with 12 => negb (a_cls a =? 0) | _ => negb (bad_call a) end) calls
+  end.
+Definition sync_run_c01 (l : list synccase) : list N * list N * list (N * N) :=
+  (idx_filter_s sync_agree l 0, idx_filter_s sync_ok_c01 l 0, []).
 Definition sync_debug (l : list synccase) :=
   map (fun c => match c with SyncCase tr _ => first_reject init_state tr 0 end) l.
